@@ -4,6 +4,7 @@ import (
 	"bytes"
 	"context"
 	"io"
+	"net/http"
 	"strings"
 )
 
@@ -118,16 +119,30 @@ func HarnessC08PoolIsolation() {
 		check(false, "compressing succeeds")
 		return
 	}
-	// a corrupt message first (arbitrary bytes that do not start with the marker)
-	corrupt := nondetBytes("corrupt", 2)
-	if len(corrupt) > 0 {
-		assume(corrupt[0] != 0xC5)
-	}
+	// first a message that fails: corrupt (arbitrary bytes that do not start
+	// with the marker), or well-formed but larger than the read limit
 	limit := int64(nondetChoice("limit", 2) * 8) // unlimited or 8
-	dst0 := &bytes.Buffer{}
-	err0 := pool.Decompress(dst0, bytes.NewBuffer(corrupt), limit)
-	check(err0 != nil, "a corrupt compressed message is rejected")
-	check(err0 == nil || err0.Code() == CodeInvalidArgument, "a corrupt compressed message is rejected as invalid_argument")
+	var err0 *Error
+	if nondetBool("firstIsOversize") {
+		limit = 1
+		big := &bytes.Buffer{}
+		if err := pool.Compress(big, bytes.NewBuffer([]byte{1, 2, 3})); err != nil {
+			check(false, "compressing succeeds")
+			return
+		}
+		err0 = pool.Decompress(&bytes.Buffer{}, big, limit)
+		check(err0 != nil, "a message that decompresses past the limit is rejected")
+		limit = 8
+	} else {
+		corrupt := nondetBytes("corrupt", 2)
+		if len(corrupt) > 0 {
+			assume(corrupt[0] != 0xC5)
+		}
+		dst0 := &bytes.Buffer{}
+		err0 = pool.Decompress(dst0, bytes.NewBuffer(corrupt), limit)
+		check(err0 != nil, "a corrupt compressed message is rejected")
+	}
+	check(err0 == nil || err0.Code() == CodeInvalidArgument || err0.Code() == CodeResourceExhausted, "a rejected compressed message is rejected as invalid_argument or resource_exhausted")
 	closesAfterCorrupt := len(log)
 	check(closesAfterCorrupt >= 1, "the decompressor is closed on the error path before it returns to the pool")
 	// two checkouts that are out at the same time must be different objects
@@ -135,7 +150,7 @@ func HarnessC08PoolIsolation() {
 	d1, e1 := pool.getDecompressor(bytes.NewBuffer(nil))
 	d2, e2 := pool.getDecompressor(bytes.NewBuffer(nil))
 	check(e1 == nil && e2 == nil, "checking out decompressors succeeds")
-	check(d1 != d2, "two calls never share a pooled decompressor after a corrupt message")
+	check(d1 != d2, "two calls never share a pooled decompressor after a rejected message")
 	_ = pool.putDecompressor(d1)
 	_ = pool.putDecompressor(d2)
 	// then the valid one through the same pool
@@ -245,4 +260,51 @@ func HarnessC08EndToEnd() {
 			check(flagged == (len(msg) >= minBytes), "a response message is flagged compressed iff it reaches the minimum size")
 		}
 	}
+}
+
+// HarnessC08ClientPreference: what the client advertises.  Every client
+// accepts the built-in gzip; algorithms registered with
+// WithAcceptCompression are preferred over it, the most recently registered
+// first, each name once.  The accept-encoding header of the request is
+// compared with that reference order for every sequence of up to three
+// registrations over {gzip, xor, br}.
+//
+//verif:harness property=C08 stubs=json,wire shard=proto:3
+func HarnessC08ClientPreference() {
+	proto := nondetChoice("proto", 3)
+	names := []string{"gzip", "xor", "br"}
+	n := nondetChoice("registrations", 4)
+	order := []string{"gzip"} // the default, registered first
+	copts := stackClientOptions(proto)
+	for i := 0; i < n; i++ {
+		name := names[nondetChoice("name", 3)]
+		order = append(order, name)
+		copts = append(copts, c08XorClient(name))
+	}
+	var want []string
+	for i := len(order) - 1; i >= 0; i-- {
+		if !containsStr(want, order[i]) {
+			want = append(want, order[i])
+		}
+	}
+	header := http.Header{"Content-Type": {[]string{"application/proto", "application/grpc+proto", "application/grpc-web+proto"}[proto]}}
+	body := []byte{7}
+	if proto != 0 {
+		body = refFrame(0, []byte{7})
+		if proto == 2 {
+			body = append(body, refFrame(0x80, []byte("grpc-status: 0\r\n"))...)
+		}
+	}
+	resp := &http.Response{StatusCode: 200, Status: "200 OK", ProtoMajor: 2, Header: header, Trailer: http.Header{}, Body: io.NopCloser(&wholeReader{data: body})}
+	if proto == 1 {
+		resp.Trailer.Set("Grpc-Status", "0")
+	}
+	tr := &cannedTransport{resp: resp}
+	client := NewClient[[]byte, []byte](tr, stackURL, copts...)
+	in := []byte{1}
+	_, err := client.CallUnary(context.Background(), NewRequest(&in))
+	check(err == nil, "the call succeeds")
+	acceptHeader := []string{connectUnaryHeaderAcceptCompression, grpcHeaderAcceptCompression, grpcHeaderAcceptCompression}[proto]
+	got := tr.reqHeader.Get(acceptHeader)
+	check(got == strings.Join(want, ","), "the client advertises its algorithms most-preferred first: latest registration first, the built-in gzip last")
 }
